@@ -13,8 +13,6 @@ INVARIANT PendingClaimsDeliveryIndependent
 INVARIANT ChannelsDeliveryIndependent
 INVARIANT EventsDeliveryIndependent
 INVARIANT MessagesDeliveryIndependent
-INVARIANT BroadcastClaimsDeliveryIndependent
-INVARIANT WatchedOutputsDeliveryIndependent
 INVARIANT ShallowReorgRetracts
 POSTCONDITION TraceAccepted
 CHECK_DEADLOCK FALSE
